@@ -219,6 +219,15 @@ def task_missing_spec(arg):
         out.state(("missing", name, ds))
         out.step()
         has = name in p.get(key, {}).get("rounding", {})
+        # independent expectation from the raw parameter file: a spec is in force iff one of its key dates is <= the date
+        try:
+            raw_keys = [x for x in RP.raw_group(key).get("rounding", {}).get(name, {}) if isinstance(x, datetime.date)]
+            expected = any(x <= d for x in raw_keys)
+        except Exception:  # noqa: BLE001
+            expected = has
+        if has != expected:
+            out.violation(f"spec-in-force-differs-from-parameter-file:{name}", {"rule": name, "date": ds, "loaded": has, "key_dates": [x.isoformat() for x in raw_keys]},
+                          f"{name} on {ds}: environment {'has' if has else 'lacks'} a rounding spec, the parameter file's key dates are {[x.isoformat() for x in raw_keys]}")
         try:
             IF._add_rounding_to_functions({name: fn}, p)
             raised = False
@@ -385,6 +394,14 @@ def run(tier):
     for part in harness.pmap(task_wrapper_joint, jdates):
         rep.merge(part)
     dates = [d.isoformat() for d in (popgen.d15() if thorough else popgen.quick_dates(4))] + (["2001-01-01", "2002-01-01", "2004-01-01", "2009-01-01"])
+    # the day before (and the 1 January before) the FIRST spec of every rule: no spec is in force yet
+    for g in RP.groups():
+        for fn_, spec in RP.raw_group(g).get("rounding", {}).items():
+            keys = sorted(x for x in spec if isinstance(x, datetime.date))
+            if keys and keys[0] > datetime.date(1984, 1, 1):
+                dates.append((keys[0] - datetime.timedelta(days=1)).isoformat())
+                dates.append(datetime.date(keys[0].year - 1, 1, 1).isoformat())
+    dates = sorted(set(dates))
     for part in harness.pmap(task_missing_spec, dates):
         rep.merge(part)
     combos = [["couple_kids", "single_parent", "pensioners"], ["patchwork", "poor_pensioner", "parental_leave"],
